@@ -4,9 +4,30 @@ from . import deck as D
 from . import gen_geom as G
 
 
-def add_like_cells(d, rng, n=None, chain_p=0.5, keys=None):
+def imp_text(parts, rng, only=None):
+    """spell per-particle importances: imp:n,p=v (any order of the designators) or one keyword per particle"""
+    ps = [p for p in ('n', 'p') if only is None or p in only]
+    f = D.fnum
+    if len(ps) == 2 and parts['n'] == parts['p'] and rng.random() < 0.5:
+        return 'imp:%s=%s' % (rng.choice(['n,p', 'p,n']), f(parts['n']))
+    if rng.random() < 0.5:
+        ps = ps[::-1]
+    return ' '.join('imp:%s=%s' % (p, f(parts[p])) for p in ps)
+
+
+def add_like_cells(d, rng, n=None, chain_p=0.5, keys=None, multi_p=0.35):
     """append 1–3 LIKE cells (possibly LIKE-of-LIKE) to deck `d`; returns the new cells"""
     n = n or rng.randint(1, 3)
+    multi = rng.random() < multi_p and d.imp_cards is None
+    if multi:
+        # importances for two particle types; the cell's importance is their maximum
+        for c in d.cells:
+            if 'imp_parts' not in c.hints and 'raw' not in c.hints:
+                parts = {'n': c.imp, 'p': c.imp}
+                if rng.random() < 0.4:
+                    parts[rng.choice(['n', 'p'])] = 0
+                c.hints['imp_parts'] = parts
+                c.hints['imp_text'] = imp_text(parts, rng)
     keys = keys or ['mat', 'rho', 'trcl', 'imp', 'u', 'fill']
     new = []
     universes = sorted(set(c.u for c in d.cells if c.u != 0))
@@ -19,7 +40,7 @@ def add_like_cells(d, rng, n=None, chain_p=0.5, keys=None):
                    fill=copy.deepcopy(base.fill), lat=base.lat, trcl=base.trcl)
         next_id += rng.choice([1, 2])
         # the explicit card must spell inherited transformations exactly as the base card does
-        for k in ('fill_num', 'fill_star', 'trcl_num', 'trcl_star', 'fill_by_option'):
+        for k in ('fill_num', 'fill_star', 'trcl_num', 'trcl_star', 'fill_by_option', 'imp_parts', 'imp_text'):
             if k in base.hints:
                 c.hints[k] = base.hints[k]
         opts = []
@@ -44,6 +65,15 @@ def add_like_cells(d, rng, n=None, chain_p=0.5, keys=None):
                 c.hints.pop('trcl_num', None)
                 c.hints.pop('trcl_star', None)
                 opts.append('trcl=(%s)' % D.inline_tr(m))
+            elif k == 'imp' and multi and 'imp_parts' in base.hints:
+                parts = dict(base.hints['imp_parts'])
+                which = rng.choice([['n'], ['p'], ['n', 'p'], ['n', 'p']])
+                for p_ in which:
+                    parts[p_] = rng.choice([0, 0, 1, 2])
+                c.imp = max(parts.values())
+                c.hints['imp_parts'] = parts
+                c.hints['imp_text'] = imp_text(parts, rng)
+                opts.append(imp_text(parts, rng, only=which))
             elif k == 'imp':
                 c.imp = rng.choice([0, 1, 2])
                 opts.append('imp:n=%s' % D.fnum(c.imp))
@@ -60,6 +90,9 @@ def add_like_cells(d, rng, n=None, chain_p=0.5, keys=None):
                 opts.append('fill=%d' % c.fill['u'])
         if not opts:
             c.imp = 1 if base.imp != 1 else 2
+            if 'imp_parts' in c.hints:
+                c.hints['imp_parts'] = {'n': c.imp, 'p': c.hints['imp_parts']['p'] if c.hints['imp_parts']['p'] <= c.imp else 0}
+                c.hints['imp_text'] = imp_text(c.hints['imp_parts'], rng)
             opts.append('imp:n=%s' % D.fnum(c.imp))
         rng.shuffle(opts)
         kw = rng.choice(['like', 'LIKE', 'Like'])
